@@ -263,6 +263,11 @@ fn main() {
                     }
                 }
             }
+            for b in &f.extra_binders {
+                if !amb.contains(b) {
+                    amb.push(b.clone());
+                }
+            }
             if o.binders.len() >= amb.len() { amb.len() } else { 0 }
         };
         let bs: String = o.binders.iter().map(|(n, ty)| format!(" ({} : {})", n, ty)).collect();
